@@ -484,7 +484,7 @@ class CompositeFrontend(ConstrainedFrontend):
             participants = [(s, c) for s, c in participants if not s._unsat]
             if not participants:
                 merged = self.blank_copy()
-                merged._unsat = True
+                merged.add([false()])
                 return True, merged
             return participants[0][0].merge([s for s, _ in participants[1:]], [c for _, c in participants])
 
